@@ -69,9 +69,9 @@ structure TextOut where
 deriving DecidableEq, Repr
 
 /-- The tail of `get_span_text`: `if(buffer && len > bytes) buffer[bytes] = 0; return bytes;`. -/
-def textFin (buf : Option Nat) (bytes : Nat) (written : List UInt8) : TextOut :=
+def textFin (buf : Option Nat) (bytes : Int) (written : List UInt8) : TextOut :=
   match buf with
-  | some len => ⟨bytes, written, decide (len > bytes)⟩
+  | some len => ⟨bytes, written, decide ((len : Int) > bytes)⟩
   | none => ⟨bytes, [], false⟩
 
 /-- `tickit_utf8_put(buffer, len, cp)` as used by `get_span_text`, followed by its tail. -/
@@ -96,8 +96,8 @@ def getSpanText (cfg : SpanCfg) (sp : SpanRef) (oneGrapheme : Bool) (buf : Optio
     match buf with
     | some len =>
       if (len : Int) < bytes then ⟨-1, [], false⟩
-      else textFin buf bytes.toNat ((sp.cell.text.drop start.bytes.toNat).take bytes.toNat)
-    | none => textFin none bytes.toNat []
+      else textFin buf bytes ((sp.cell.text.drop start.bytes.toNat).take bytes.toNat)
+    | none => textFin none bytes []
   | .line => putOut buf (Tickit.Gen.RBWidth.linemaskToChar.getD sp.cell.lmask 0)
   | .char => putOut buf sp.cell.cp.toNat
 
@@ -181,9 +181,41 @@ def specSpanBytes (ct : Content) (n : Int) : List UInt8 :=
   | .line _ m => Utf8.put (Tickit.Gen.RBWidth.linemaskToChar.getD m 0)
   | .char _ cp => Utf8.put cp.toNat
 
+/-- The length of that text in bytes (for text: the distance between the two counting positions). -/
+def specSpanLen (ct : Content) (n : Int) : Int :=
+  match ct with
+  | .skip | .erase _ => 0
+  | .text _ s k =>
+    let st := (Utf8.ncountmore s none {} (some (Utf8.limitColumns k))).pos
+    let en := (Utf8.ncountmore s none st (some (Utf8.limitColumns (k + n)))).pos
+    en.bytes - st.bytes
+  | .line _ m => (Utf8.put (Tickit.Gen.RBWidth.linemaskToChar.getD m 0)).length
+  | .char _ cp => (Utf8.put cp.toNat).length
+
 /-- The pen a content is drawn with. -/
 def contentPen : Content → Option Pen
   | .skip => none
   | .text p _ _ | .erase p | .line p _ | .char p _ => some p
+
+/-- **What `tickit_renderbuffer_get_span` must answer** for a piece of `n` columns whose first cell shows `ct`:
+    a skipped piece is inactive and has no text (return value 0; nothing else is stored); otherwise the piece is
+    active, `info->pen` receives the pen, the text is `specSpanBytes`, NUL-terminated if the buffer has room, its
+    length goes to `info->len` and is returned — `-1` for both (and nothing stored) if a buffer is given and the text
+    does not fit.  Without a buffer only the length is reported. -/
+def specSpanOut (ct : Content) (n : Int) (info infoPen buf : Bool) (len : Nat) : SpanOut :=
+  let ncols : Option Int := if info then some n else none
+  match contentPen ct with
+  | none => { ret := 0, nColumns := ncols, isActive := if info then some false else none }
+  | some p =>
+    let fits := !buf || decide (specSpanLen ct n ≤ (len : Int))
+    let tlen : Int := if fits then specSpanLen ct n else -1
+    { ret := tlen
+      nColumns := ncols
+      isActive := if info then some true else none
+      pen := if info && infoPen then some p else none
+      len := if info then some tlen else none
+      textSet := info
+      bytes := if buf && fits then specSpanBytes ct n else []
+      term := buf && decide ((len : Int) > specSpanLen ct n) }
 
 end Tickit.RB
